@@ -648,10 +648,26 @@ pub fn spec(check: &str, tier: &str) -> Option<CheckSpec> {
                     }
                 }
             }
+            // a lazy static that was initialised in the iteration does not switch the leak check
+            // off either (and is not itself reported): every LEAK program with a lazy static read
+            // by main after the spawns or by a child first thing (plain flavour: the other one
+            // yields inside its initialiser, which in front of a racing operation is defect D25)
+            for b in fam::leak_family() {
+                for flavour in [false] {
+                    for t in 0..b.threads.len() {
+                        let mut q = b.clone();
+                        q.objs.lazies = vec![flavour];
+                        let at = if t == 0 { q.threads[0].iter().rposition(|o| matches!(o.k, crate::ir::K::Spawn { .. })).map(|x| x + 1).unwrap_or(0) } else { 0 };
+                        let mut q = fam::insert_op(&q, t, at, crate::ir::K::LazyGet { k: 0 }.into());
+                        q.name = format!("{}+lazy", q.name);
+                        progs.push(q);
+                    }
+                }
+            }
             let (da, dl) = if tier == "quick" { (4, 5) } else { (7, 8) };
             progs.extend(fam::arc_seq_family(da));
             progs.extend(fam::alloc_seq_family(dl));
-            let l1 = format!("{}; STAT programs whose thread-locals / lazy statics own an Arc; ARC-seq: every main-only sequence of <= {} handle ops with a release followed by a new Arc; ALLOC-seq: every sequence of <= {} alloc/dealloc/Track/Arc ops", l1, da, dl);
+            let l1 = format!("{}; LEAK programs next to an initialised lazy static; STAT programs whose thread-locals / lazy statics own an Arc; ARC-seq: every main-only sequence of <= {} handle ops with a release followed by a new Arc; ALLOC-seq: every sequence of <= {} alloc/dealloc/Track/Arc ops", l1, da, dl);
             Some(CheckSpec {
                 id: "C10",
                 level: "model_checking",
